@@ -14,7 +14,8 @@ def cases(rnd, n):
              ':is(', ':not(:has(', 'a >', '> a', 'a,,b', ',', '', ' ', '\x00', 'a\x00b', '\ud800', '#', '.', '#1', '.-', '--', '-',
              ':--c', ':--', ':lang(', ':lang()', ':lang(,)', ':dir(x)', ':nth-child()', ':nth-child(n n)', ':nth-child(2n+ of a)',
              ':nth-child(odd of', 'a|', '|', '*|', 'a||b', '[a|=]', '[a~=\'x]', ':not()', ':is()', ':has()', ':where(,)',
-             ':has(> )', ':has(a >)', ':host(a', ':current(a,)', 'a /* x', 'a */', ':-soup-contains("a', ":-soup-contains('a\\')"]
+             ':has(> )', ':has(a >)', ':host(a', ':current(a,)', 'a /* x', 'a */', ':-soup-contains("a', ":-soup-contains('a\\')",
+             'p:foo\\{bar\\}', 'a:hover\\{', 'p:--tpl\\{name\\}', 'div:nth\\7b 1\\7d ', 'p:x\\%s', 'p:x\\{0\\}', ':\\{\\}(', '::\\{', '@\\{x']
     for f in fixed:
         out.append((f, None))
         out.append((f, {':--c': f}))
